@@ -92,6 +92,18 @@ CLAIMED["C17"] = _c(
     _TB + " h_core/C17; NOT covered: reorderings the C11 memory model allows beyond interleavings, a general no-lost-wake-up invariant, half-written slots, cursor.rs / worker.rs / atomic_waker pair() (orderings pinned only), socket/ring.rs, wakeup_queue.rs; judge_run not proved; no axioms",
     "Coq proof (invariant by induction over interleaving schedules; bounded exhaustive exploration for wake-ups) + scheduled model/implementation correspondence; partial")
 
+CLAIMED["C05"] = _c(
+    "Coq theorems over reference codecs written from RFC 9000 16-19 (and RFC 8999/9221): varint round trip (also for every admissible longer encoding), shortest-form size, decode totality with exact failure condition and progress; the implementation-shaped varint table read from varint/table.rs equals the RFC entries and its formatted bytes equal the reference encoding; for all 24 frame constructors decode(encode f ++ rest) = (f, rest) under the two named non-injective spots, announced size = encoded length, every decoded frame consumes at least one byte and the payload loop never runs out of fuel; long/short/VN/Retry header round trips, truncated packet-number byte layout, transport-parameter block grammar round trip and totality. The property's other half (the Rust decoders agree with an independent reference parser on every input, and never panic) is differential by nature: varints, frame payloads, coalesced datagrams, packet numbers and parameter blocks (grammar-generated, mutated, random; all 2^16 two-byte varint prefixes) are decoded by the real code under catch_unwind and compared with the reference, re-encodings compared byte for byte",
+    "5.5, 12",
+    _TB + " h_core/C05; totality of the Rust decoders is established on the inputs tried plus the proved totality of the reference; header protection / pn expansion / AEAD belong to C06/C08, parameter semantics to C14; little-endian host assumed for the table model; no axioms (coqchk in the thorough tier: none)",
+    "Coq proof (round-trip and progress theorems by case analysis and induction) + translator (varint table) + reference-vs-implementation differential execution")
+
+CLAIMED["C09"] = _c(
+    "Coq theorems over models of loss::detect, RttEstimator, Pto and recovery::Manager: detect is Lost iff the packet is at least K=3 older than the largest acknowledged or sent + 9/8*max(smoothed, latest) (floor 1 ms) has elapsed in the code's sense - the exact statement includes the one-granularity slack of Timestamp::has_elapsed, so the property's time rule is proved complete and sound up to 1 ms, and refuted as worded (KNOWN-FINDING loss_time_threshold_short_by_granularity); RTT bounds for every history of samples (latest = last sample, min_rtt = minimum, smoothed within [min - 49 ns, max]), PTO floor 1 ms and exact doubling, backoff min(2^k, cap); at Manager level for all op sequences: a PTO expiry never marks packets lost, every sent packet is resolved exactly once, per-path bytes in flight equals the sum of unresolved congestion-controlled packet sizes (never negative), discard is exact, lost packets satisfy the RFC rule up to the granularity slack (_partial). Tied to the code by 17 generated constants and differential execution of the real detect / RttEstimator / Pto and of the real recovery::Manager through hook H1 (recovery.rs) with a byte-ledger congestion controller",
+    "5.9, 12",
+    _TB + " h_transport/C09 + hook recovery.rs; not modelled: PTO jitter (0), ECN, MTU probes, amplification-limited paths, Retry, client side; the discard op is in the correspondence runs but not in the manager judge theorem; no axioms (coqchk in the thorough tier)",
+    "Coq proof (arithmetic with lia; invariants by induction over histories, partly partial) + model/implementation correspondence + RFC-rule judgement")
+
 NOT_APPLICABLE = {
     "C07": "interoperation with an independent third-party QUIC/TLS binary cannot be stated as a theorem about any model we could write (DESIGN.md 5.7); its provable content is carried by C05/C08/C14/C06",
 }
